@@ -410,7 +410,7 @@ func check(stream []byte, client bool, every int) (viol []mismatch, refErr error
 			nontrivial = true
 		}
 	}
-	c := &httpgen.Case{Stream: stream, Client: client, Mode: httpgen.Real, ReadLimit: -1, Policy: track.Pooled, Every: every}
+	c := &httpgen.Case{Stream: stream, Client: client, Mode: httpgen.Real, ReadLimit: -1, Policy: track.Pooled, Every: every, Lite: true}
 	r := httpgen.Run(c, true)
 	res = r
 	if len(r.Panics) > 0 {
